@@ -276,6 +276,9 @@ var allTypes = []reflect.Type{
 	reflect.TypeFor[*ast.BranchStmt](),
 	reflect.TypeFor[*ast.IncDecStmt](),
 	reflect.TypeFor[*ast.BasicLit](),
+	// Lists of statements and fields, which Any, bindings and Not match as a whole.
+	reflect.TypeFor[*ast.BlockStmt](),
+	reflect.TypeFor[*ast.FieldList](),
 }
 
 var nodeToASTTypes = map[reflect.Type][]reflect.Type{
